@@ -420,9 +420,11 @@ class CachedFcn(UserFcn):
             and all(self._sameArgument(kwds[k], self.lastKwds[k]) for k in kwds)
         ):
             return self.lastReturn
+        # evaluate first: if the function raises, nothing is remembered for these arguments
+        result = super().__call__(*args, **kwds)
         self.lastArgs = args
         self.lastKwds = kwds
-        self.lastReturn = super().__call__(*args, **kwds)
+        self.lastReturn = result
         return self.lastReturn
 
     def __repr__(self):
